@@ -30,6 +30,9 @@ theorem hex_macro_body_bytes (body m : List Nat) (h : hexMacro hexTable body = s
   have := hexMacro_lt hexTable (by decide) body m h c hc
   exact ⟨this, lt256_scalar _ this⟩
 
+/-- the macro space the model's `push_repeated` uses is the one in the source -/
+theorem maxMacroLen_synced : IcyVerif.Gen.Unsafe.maxMacroLen = IcyVerif.Uni.maxMacroLen := by decide
+
 /-- XBin `read_data_compressed`: `transmute::<u8, Compression>(b & mask)`: for every byte the masked value is one of the
     enum's declared discriminants (mask and discriminants regenerated) -/
 theorem site_read_data_compressed_0 :
